@@ -213,12 +213,12 @@ PROPS = {
             {"mode": "miri", "shards": 8, "tiers": ["thorough"], "timeout_thorough": 3000, "miriflags": "-Zmiri-disable-isolation -Zmiri-permissive-provenance -Zmiri-ignore-leaks"},
         ],
         "rule": "an evaluation is (a) one single-threaded history of 8-60 operations over {3 readers acquire/query/walk/release, one writer open/update/remove/"
-                "remove_all/commit/abandon} on a 5-name zone, checked operation by operation against a model with the list of committed contents (every value "
+                "remove_all/commit/abandon/lost to a panic of its task; write access asked for while the writer is at work and granted afterwards} on a 5-name zone, checked operation by operation against a model with the list of committed contents (every value "
                 "written carries a unique stamp, so an observation names the write it saw), with the version-bookkeeping inspector run after every commit and "
                 "abandon; or (b) one query/walk pass of a reader thread in a real-thread stress run (3-4 reader threads, 2 competing writer tasks on a "
                 "multi-thread runtime, each committed version stamps every record with its version number, abandoned versions use a disjoint stamp range, "
                 "seeded yields/sleeps at the six pause hooks): all stamps a reader sees must be one version v with finished_before <= v <= started_after, "
-                "walk == queries, held readers keep their version, writers-inside never exceeds 1; the same stress runs under ThreadSanitizer and (thorough) "
+                "walk == queries (TXT, ANY and a type the name lacks), held readers keep their version, writers-inside never exceeds 1, and no stall: 20 s without a read, commit or abandon while the process uses no CPU time is a deadlock; the same stress runs under ThreadSanitizer and (thorough) "
                 "Miri; distinct = order of acquire/open/commit/abandon events of a history resp. (v-finished_before, started_after-v, writer-open) classes",
         "assumptions": ["a reader may observe any version that was current at some instant between the call and return of read()",
                         "only the data a reader sees is judged here (which rcode a name without data gets is C08's business)"],
